@@ -324,7 +324,8 @@ def discharge(ob, inputs, both=False, timeout_ms=None):
             if cres in ("sat", "unsat"):
                 res, backend = cres, "cvc5"
     elif both:
-        cres = cvc5_check(s.to_smt2(), Z3_TIMEOUT_MS)
+        # thorough tier: independent second opinion; a short budget -- a cvc5 timeout never changes the verdict
+        cres = cvc5_check(s.to_smt2(), min(Z3_TIMEOUT_MS, 4000))
         ob.info["cvc5"] = cres
         if cres in ("sat", "unsat") and cres != res:
             ob.info["backend_disagreement"] = True
